@@ -64,6 +64,8 @@ type Ctx struct {
 	known       []string
 	internal    []string
 	diagnostics []string
+	// replay mode: only the recorded violation counts, evidence is not rewritten
+	ReplayOf, ReplayPath string
 }
 
 func NewCtx(id string) *Ctx {
@@ -143,6 +145,13 @@ func (c *Ctx) Known(dev, what string) {
 func (c *Ctx) Violation(what string, replay any) {
 	c.mu.Lock()
 	defer c.mu.Unlock()
+	if c.ReplayOf != "" {
+		if what == c.ReplayOf && c.nviol == 0 {
+			c.nviol++
+			fmt.Printf("VIOLATION property=%s replay=%s\n  %s\n", c.ID, c.ReplayPath, what)
+		}
+		return
+	}
 	c.nviol++
 	if len(c.violations) >= 25 {
 		return
@@ -241,6 +250,16 @@ func (c *Ctx) Finish() {
 	c.mu.Unlock()
 	dir := EvidenceDir()
 	os.MkdirAll(dir, 0o755)
+	if c.ReplayOf != "" {
+		if nviol == 0 {
+			fmt.Printf("replay %s: the recorded violation does not recur\n", c.ReplayPath)
+			if ninternal > 0 {
+				os.Exit(2)
+			}
+			os.Exit(0)
+		}
+		os.Exit(1)
+	}
 	b, _ := json.MarshalIndent(ev, "", " ")
 	if err := os.WriteFile(filepath.Join(dir, c.ID+".json"), append(b, '\n'), 0o644); err != nil {
 		fmt.Printf("INTERNAL-ERROR %s: cannot write evidence: %v\n", c.ID, err)
@@ -372,4 +391,21 @@ func guardMonitor() {
 		c.Logf("stopping: a call of the library inside the harness does not come back")
 		c.Finish()
 	}
+}
+
+// ReadReplay reads tier, seed and message of a replay file written by Violation.
+func ReadReplay(path string) (tier string, seed int64, what string, ok bool) {
+	b, err := os.ReadFile(path)
+	if err != nil {
+		return "", 0, "", false
+	}
+	var r struct {
+		Tier string `json:"tier"`
+		Seed int64  `json:"seed"`
+		What string `json:"what"`
+	}
+	if json.Unmarshal(b, &r) != nil || r.What == "" {
+		return "", 0, "", false
+	}
+	return r.Tier, r.Seed, r.What, true
 }
